@@ -6,7 +6,7 @@ rows = []
 for f in sorted(glob.glob(os.path.join(V, "seeded", "*", "meta.json"))):
     m = json.load(open(f)); name = os.path.basename(os.path.dirname(f))
     esc = lambda s: s.replace("|", "\\|")
-    rows.append("| %s | %s | %s | %s |" % (name, esc(m["change"]), esc(m["needs_to_manifest"]), esc(m["caught_by"])))
+    rows.append("| %s | %s | %s | %s |" % (name, esc(m["change"]), esc(m["needs_to_manifest"]), esc(m["caught_by"] + ((" -- " + m["note"]) if m.get("note") else ""))))
 d = open(os.path.join(V, "DESIGN.md")).read()
 head = "| id | change | needs, to manifest | caught by |\n|---|---|---|---|\n"
 i = d.index(head) + len(head)
